@@ -19,6 +19,25 @@ fn exec_cli_threads(j: &J) -> Result<RunOut, String> {
     out.sim_steps = 1;
     out.sample = Some(reference.sample());
     out.count("probe.cli_real_rayon_executions", 1);
+    // the same arguments once more into a directory where longer output files of an earlier run
+    // are already present: the output must be a function of the arguments only
+    {
+        let mut st = sc.clone();
+        st.fault = "stale-output".into();
+        let r = cliproc::run_cli(&st)?;
+        out.count("fault.F-stale(output files existed before the run)", 1);
+        if reference.code == Some(0) && (r.code != reference.code || r.json != reference.json || r.svg != reference.svg) {
+            out.violate(Violation::new(
+                "cli-output-depends-on-existing-files",
+                0,
+                format!(
+                    "with older, longer output files already present at the --outfile path the binary left different bytes behind than in an empty directory (json {} vs {} bytes, svg {} vs {} bytes); argv {:?}",
+                    r.json.as_ref().map(|b| b.len()).unwrap_or(0), reference.json.as_ref().map(|b| b.len()).unwrap_or(0),
+                    r.svg.as_ref().map(|b| b.len()).unwrap_or(0), reference.svg.as_ref().map(|b| b.len()).unwrap_or(0), r.argv
+                ),
+            ));
+        }
+    }
     for (k, t) in [1u64, 2, 4, 16].iter().enumerate() {
         sc.threads = *t;
         let r = cliproc::run_cli(&sc)?;
@@ -219,6 +238,7 @@ impl C09 {
         }
         h.u64(reference.hash());
         out.sim_steps += sc.replicas * (1000 + 2 * sc.steps);
+        out.count("fault.F-stale(output files existed before the run)", sc.stale_output as u64);
         out.sample = Some(
             J::obj()
                 .set("reference_json_bytes", J::uint(reference.json.as_ref().map(|b| b.len()).unwrap_or(0) as u64))
